@@ -762,8 +762,8 @@ func (r *runner) step(op *Op) error {
 		}
 		return nil
 	case o.runErr != nil:
-		if wasAfterFailed && op.K == "var" && op.Init != "copy" && isBasic(op.Typ) {
-			// a variable declaration with a literal or zero initialiser of a basic type has
+		if wasAfterFailed && op.K == "var" && op.Init != "copy" {
+			// a variable declaration with a literal or zero initialiser has
 			// nothing that can panic: what panicked is code the failed input left behind
 			if known(F5) {
 				rec.Excluded(F5)
@@ -1381,7 +1381,7 @@ func (g *gen) failOp() Op {
 // ---------------------------------------------------------------- the property
 
 func TestHistories(t *testing.T) {
-	rec.Check(t, rec.Scale(400, 2500), func(t *rapid.T) {
+	rec.Check(t, rec.Scale(300, 2500), func(t *rapid.T) {
 		r := newRunner()
 		g := &gen{t: t, r: r}
 		var h History
